@@ -126,19 +126,27 @@ def inputLines (log : List Ev) : List Str :=
 def enqEvent (c : Cfg) (s : Sig) : Tr :=
   if c.L.forceQuit then .dropped s else .enq (c.L.route s.src) s
 
+/-- the successful `InputReadySignal` for request `r`: addressed to the requester and handler of that
+request, carrying the typed line -/
+def okSig (reqs : List Request) (r : Nat) (line : Str) (sid : Nat) : Sig :=
+  { id := sid, cls := .inputReady, prio := 0, src := (reqs.getD r default).requester, line := line,
+    ih := (reqs.getD r default).ih, ok := true }
+
+/-- the failed `InputReadySignal` for request `t`: addressed to its requester and handler, no line -/
+def failSig (reqs : List Request) (t : Nat) (sid : Nat) : Sig :=
+  { id := sid, cls := .inputReady, prio := 0, src := (reqs.getD t default).requester, line := [],
+    ih := (reqs.getD t default).ih, ok := false }
+
 /-- the failed `InputReadySignal`s for the requests `ts` (in that order), with ids from `sid` on -/
 def failSigs (reqs : List Request) : List Nat → Nat → List Sig
   | [], _ => []
-  | t :: ts, sid =>
-    { id := sid, cls := .inputReady, prio := 0, src := (reqs.getD t default).requester, line := [],
-      ih := (reqs.getD t default).ih, ok := false } :: failSigs reqs ts (sid + 1)
+  | t :: ts, sid => failSig reqs t sid :: failSigs reqs ts (sid + 1)
 
 /-- the signals `InputThreadManager._input_received_handler` emits for the typed `line` when the request
 stack is `rs ++ [r]` (oldest … newest) and the next fresh signal id is `sid`: first the successful one for the
 newest request `r`, carrying the line, then a failed one for every earlier request, oldest first -/
 def handoffSigs (reqs : List Request) (rs : List Nat) (r : Nat) (line : Str) (sid : Nat) : List Sig :=
-  { id := sid, cls := .inputReady, prio := 0, src := (reqs.getD r default).requester, line := line,
-    ih := (reqs.getD r default).ih, ok := true } :: failSigs reqs rs (sid + 1)
+  okSig reqs r line sid :: failSigs reqs rs (sid + 1)
 
 /-- `enqueue_signal` for each of the signals in turn -/
 def enqueueAll (c : Cfg) (sigs : List Sig) : Cfg := sigs.foldl Cfg.enqueue c
@@ -154,5 +162,28 @@ def IHandler.failed (h : IHandler) : IHandler := { h with received := true, ok :
 /-- the handler's request was answered with `line`; the one-shot callback is used up -/
 def IHandler.answered (h : IHandler) (line : Str) : IHandler :=
   { h with received := true, ok := true, value := some line, cb := none }
+
+/-! ### a new request -/
+
+/-- the freshly created `InputHandler` object -/
+def freshIH (source : Src) (skip : Bool) (cb : Option Nat) : IHandler := { source := source, skip := skip, cb := cb }
+
+/-- A new `InputHandler` `h` was created and asked for input with prompt `text`: the handler, its
+request and its signal handler are recorded, and the request is either refused (stack and reader
+untouched, nothing printed) or accepted (pushed on the stack, prompt printed, a reader thread started
+iff none was running). -/
+structure Requested (c c' : Cfg) (h : IHandler) (text : Str) : Prop where
+  ihs : c'.A.ihs = c.A.ihs ++ [h]
+  reqs : c'.A.reqs = c.A.reqs ++ [{ ih := c.A.ihs.length, requester := h.source, text := text }]
+  handlers : c'.L.handlers = c.L.handlers ++ [ihReg c.A.ihs.length]
+  stdin : c'.A.stdin = c.A.stdin
+  log : c'.log = c.log
+  outcome :
+    (c.A.inputStack ≠ [] ∧ h.skip = false ∧ c'.A.inputStack = c.A.inputStack ∧
+      c'.A.processing = c.A.processing ∧ c'.A.readers = c.A.readers ∧ c'.A.out = c.A.out) ∨
+    ((c.A.inputStack = [] ∨ h.skip = true) ∧ c'.A.inputStack = c.A.inputStack ++ [c.A.reqs.length] ∧
+      c'.A.processing = true ∧ c'.A.out = c.A.out ++ [text] ∧
+      ((c.A.processing = true ∧ c'.A.readers = c.A.readers) ∨
+       (c.A.processing = false ∧ c'.A.readers = c.A.readers ++ [c.A.reqs.length])))
 
 end Simpleline
